@@ -349,7 +349,43 @@ static string dump_cfg(cfg_t *cfg, int depth)
 	for (unsigned int i = 0; i < n; i++) {
 		if (i)
 			r += ",";
-		r += snap_opt(cfg_getnopt(cfg, i), depth);
+		cfg_opt_t *opt = cfg_getnopt(cfg, i);
+		r += snap_opt(opt, depth);
+		// the by-name convenience accessors must agree with the by-pointer ones (exercised on every dump)
+		const char *nm = cfg_opt_name(opt);
+		if (nm && nm[0] && !strpbrk(nm, "|=") && cfg_getopt(cfg, nm) == opt) {
+			unsigned int sz = cfg_opt_size(opt), last = sz ? sz - 1 : 0;
+			bool ok = cfg_size(cfg, nm) == sz && cfg_getcomment(cfg, nm) == cfg_opt_getcomment(opt);
+			switch (opt->type) {
+			case CFGT_INT:
+				ok = ok && cfg_getint(cfg, nm) == cfg_opt_getnint(opt, 0) && cfg_getnint(cfg, nm, last) == cfg_opt_getnint(opt, last);
+				break;
+			case CFGT_FLOAT: {
+				double a = cfg_getfloat(cfg, nm), b = cfg_opt_getnfloat(opt, 0), c2 = cfg_getnfloat(cfg, nm, last), d2 = cfg_opt_getnfloat(opt, last);
+				ok = ok && !memcmp(&a, &b, sizeof a) && !memcmp(&c2, &d2, sizeof c2);
+				break;
+			}
+			case CFGT_BOOL:
+				ok = ok && cfg_getbool(cfg, nm) == cfg_opt_getnbool(opt, 0) && cfg_getnbool(cfg, nm, last) == cfg_opt_getnbool(opt, last);
+				break;
+			case CFGT_STR:
+				ok = ok && cfg_getstr(cfg, nm) == cfg_opt_getnstr(opt, 0) && cfg_getnstr(cfg, nm, last) == cfg_opt_getnstr(opt, last) &&
+				     cfg_opt_getstr(opt) == cfg_opt_getnstr(opt, 0);
+				break;
+			case CFGT_PTR:
+				ok = ok && cfg_getptr(cfg, nm) == cfg_opt_getnptr(opt, 0) && cfg_getnptr(cfg, nm, last) == cfg_opt_getnptr(opt, last);
+				break;
+			case CFGT_SEC:
+				ok = ok && cfg_getnsec(cfg, nm, last) == cfg_opt_getnsec(opt, last) && (sz == 0 || cfg_getsec(cfg, nm) == cfg_opt_getnsec(opt, 0));
+				break;
+			default:
+				break;
+			}
+			if (!ok) {
+				dprintf(2, "VT-ACCESSOR-MISMATCH: by-name accessor disagrees with by-pointer accessor for option '%s'\n", nm);
+				abort();
+			}
+		}
 	}
 	r += "]}";
 	return r;
@@ -800,14 +836,17 @@ static void run_script(const string &script)
 			Arg v = A(4);
 			int rc;
 			apply_errno();
+			static unsigned alt = 0;
+			bool conv = idx == 0 && (alt++ & 1); // every other index-0 call goes through the convenience wrapper
 			if (c == "setint")
-				rc = cfg_setnint(cfg, cs(path), strtol(v.s.c_str(), NULL, 0), idx);
+				rc = conv ? cfg_setint(cfg, cs(path), strtol(v.s.c_str(), NULL, 0)) : cfg_setnint(cfg, cs(path), strtol(v.s.c_str(), NULL, 0), idx);
 			else if (c == "setfloat")
-				rc = cfg_setnfloat(cfg, cs(path), strtod(v.s.c_str(), NULL), idx);
+				rc = conv ? cfg_setfloat(cfg, cs(path), strtod(v.s.c_str(), NULL)) : cfg_setnfloat(cfg, cs(path), strtod(v.s.c_str(), NULL), idx);
 			else if (c == "setbool")
-				rc = cfg_setnbool(cfg, cs(path), (cfg_bool_t)strtol(v.s.c_str(), NULL, 0), idx);
+				rc = conv ? cfg_setbool(cfg, cs(path), (cfg_bool_t)strtol(v.s.c_str(), NULL, 0))
+					  : cfg_setnbool(cfg, cs(path), (cfg_bool_t)strtol(v.s.c_str(), NULL, 0), idx);
 			else
-				rc = cfg_setnstr(cfg, cs(path), cs(v), idx);
+				rc = conv ? cfg_setstr(cfg, cs(path), cs(v)) : cfg_setnstr(cfg, cs(path), cs(v), idx);
 			saved_errno = errno;
 			o += ",\"rc\":" + jnum(rc);
 		} else if (c == "osetint" || c == "osetfloat" || c == "osetbool" || c == "osetstr") {
